@@ -13,6 +13,7 @@
 //     fixed point of String∘FromString; GetSpecific(purl.Name, purl.Type) and
 //     GetAllOfType(purl.Type) contain the package (pointer identity)
 //   - proto record: name, version, locations, every PURL field + PURL string, layer details verbatim
+//     (layer details range over {nil, full, empty diff ID, empty command, index 0, base image yes/no, all-zero})
 //   - CDX component: name, version, PURL string, locations (evidence occurrences) verbatim
 //   - SPDX package (exists when the PURL has a name and a version): PURL locator verbatim,
 //     name/version verbatim (see DC2), first two locations verbatim inside the source info
@@ -62,6 +63,19 @@ import (
 )
 
 type viol struct{ key, what string }
+
+// layerAlphabet: the shapes of layer attribution besides nil and the full record `layer`:
+// empty layer (ENV/CMD layers have no diff ID), no command, index 0, base image or not, all-zero.
+var layerAlphabet = []extractor.LayerDetails{
+	{Index: 2, DiffID: "", Command: "ENV PATH=/usr/local/bin:/usr/bin", InBaseImage: false},
+	{Index: 4, DiffID: "", Command: "CMD [\"sh\"]", InBaseImage: true},
+	{Index: 1, DiffID: "sha256:ab12", Command: "", InBaseImage: true},
+	{Index: 0, DiffID: "sha256:cd34", Command: "ADD file:0123 in /", InBaseImage: false},
+	{Index: 5, DiffID: "sha256:ef56", Command: "RUN make", InBaseImage: false},
+	{Index: 0, DiffID: "", Command: "", InBaseImage: true},
+	{Index: 7, DiffID: "", Command: "", InBaseImage: false},
+	{},
+}
 
 var layer = &extractor.LayerDetails{Index: 3, DiffID: "sha256:0123456789abcdef", Command: "RUN apt-get install -y \"x y\" # é", InBaseImage: true}
 
@@ -219,6 +233,22 @@ func judgeOne(it *harvest.Item) (vs []viol, pu *purl.PackageURL, purlPanicked bo
 							add("proto-field:purl-parts", "proto purl qualifiers %v != %v", gp.GetQualifiers(), pu.Qualifiers)
 							break
 						}
+					}
+				}
+			}
+		}
+		// the rest of the layer-details alphabet: every field comes back verbatim (compared
+		// through the getters, so an all-zero record may be absent or empty)
+		for _, ld := range layerAlphabet {
+			ld := ld
+			var res3 *spb.ScanResult
+			if pv, st := ev.Recover(func() { cp3 := *p; cp3.LayerDetails = &ld; res3, _ = sproto.ScanResultToProto(scanResult(&cp3)) }); pv != nil {
+				add("panic:proto:"+ev.PanicSite(st), "ScanResultToProto panicked with layer details %+v: %v", ld, pv)
+			} else if res3 != nil {
+				if pk := res3.GetInventory().GetPackages(); len(pk) == 1 {
+					g := pk[0].GetLayerDetails()
+					if int(g.GetIndex()) != ld.Index || g.GetDiffId() != ld.DiffID || g.GetCommand() != ld.Command || g.GetInBaseImage() != ld.InBaseImage {
+						add("proto-field:layer-details", "proto layer details %v != %+v", g, ld)
 					}
 				}
 			}
